@@ -19,11 +19,22 @@ Three parts, each a transcription of code that exists in /repo/src:
        statement that every stamp that is read is the current one.
        The same information, row by row, is the *setter table* `setterTable`.
 
+Scanner geometry: the formula takes the incidence cosine of EACH detector of a pair as a separate input
+(`detectionEfficiencyNoScatter … cosA cosB`, `PD.cosInc`), so it is the formula of cylindrical and of
+BlocksOnCylindrical scanners alike (on a cylinder the two cosines of a pair happen to coincide); the state
+machine knows which templates are BlocksOnCylindrical (`World.blocksBase`) because `downsample_scanner`
+chooses its default number of detectors differently there.
+Pointers: images are identified by their VALUES. "The owner overwrites the voxels of an image in place and
+hands the same `shared_ptr` to the setter again" is the event `setActivityInPlace` / `setDensityInPlace` /
+`setSpImageInPlace`: the value behind the pointer the object already holds changes (no STIR code runs), then the
+setter runs; the C++ setters do not compare the new pointer with the old one, so neither do these.
+
 What is not modelled: the values of line integrals / cross sections / efficiencies (inputs of (i)),
-block-geometry scanners, `set_output_proj_data*` (the harness always provides a matching output),
+`set_output_proj_data*` (the harness always provides a matching output),
 default (negative) zoom factors of `downsample_density_image_for_scatter_points` (answered
-`unmodelled`), `downsample_images_to_scanner_size` (table row only), random placement of scatter
-points (table row only), 32-bit overflow.
+`unmodelled`; oracle-only in the harness), `downsample_images_to_scanner_size` (table row only; oracle-only in the
+harness), random placement of scatter points (table row only; the harness runs the same histories with it on),
+32-bit overflow.
 
 Core Lean only (no Mathlib): this file is linked into the `stirdriver` executable.
 -/
@@ -215,6 +226,8 @@ structure World where
   nsp : ScattProv → Nat
   /-- `round(total_axial_length / 20 + 0.5)` clamped to ≥ 2 in `downsample_scanner` -/
   defaultDsRings : Tmpl → Nat
+  /-- is the physical scanner `base` a BlocksOnCylindrical one (`get_scanner_geometry() != "Cylindrical"`)? -/
+  blocksBase : Nat → Bool
   /-- `check_z_to_middle_consistent` of the attenuation / scatter-point images against this activity image -/
   zOk : Nat → Bool
 
@@ -289,11 +302,27 @@ def setActivity (k : Option Nat) (s : St) : St × Res :=
   | none => (s, .err)
   | some a => ({ s with act := some a, actCache := none, alreadySetUp := false }, .ok)
 
+/-- the owner of the activity image overwrites its voxel values in place. No STIR code runs: the object sees the
+    new values through its `shared_ptr<const DiscretisedDensity<3,float>>` (nothing happens if it holds no image) -/
+def mutateActivity (a : Nat) (s : St) : St := { s with act := s.act.map fun _ => a }
+
+/-- in-place change of the activity image, then `set_activity_image_sptr(the same pointer)`
+    (`ScatterEstimation::process_data` does this in every iteration). The setter (ScatterSimulation.cxx:431) assigns the
+    pointer and removes the activity cache whether or not the pointer is the one it already holds. -/
+def setActivityInPlace (a : Nat) (s : St) : St × Res := setActivity (some a) (mutateActivity a s)
+
 /-- `set_density_image_sptr` (ScatterSimulation.cxx:450) -/
 def setDensity (k : Option Nat) (s : St) : St × Res :=
   match k with
   | none => (s, .err)
   | some m => ({ s with att := some m, spImage := none, attCache := none, alreadySetUp := false, gSp := none }, .ok)
+
+/-- the owner of the attenuation image overwrites its voxel values in place (no STIR code runs; a scatter-point image
+    derived earlier is a separate object and keeps the old values) -/
+def mutateDensity (m : Nat) (s : St) : St := { s with att := s.att.map fun _ => m }
+
+/-- in-place change of the attenuation image, then `set_density_image_sptr(the same pointer)` -/
+def setDensityInPlace (m : Nat) (s : St) : St × Res := setDensity (some m) (mutateDensity m s)
 
 /-- `sample_scatter_points` (sample_scatter_points.cxx:42); with a null image the C++ dereferences null -/
 def sampleScatterPoints (s : St) : St × Res :=
@@ -308,6 +337,11 @@ def setSpImage (k : Option Nat) (s : St) : St × Res :=
   | some i =>
     let (s1, r) := sampleScatterPoints { s with spImage := some (.given i), gSp := some i }
     ({ s1 with attCache := none, alreadySetUp := false }, r)
+
+/-- in-place change of a scatter-point image, then `set_density_image_for_scatter_points_sptr(the same pointer)`.
+    The object holds a COPY of the image it was given (`new VoxelsOnCartesianGrid<float>(*arg)`, ScatterSimulation.cxx:474),
+    so the in-place change itself is invisible to it; the setter copies and samples again. -/
+def setSpImageInPlace (i : Nat) (s : St) : St × Res := setSpImage (some i) s
 
 /-- `set_exam_info` / `set_exam_info_sptr` (ScatterSimulation.cxx:757,764) -/
 def setExam (e : Nat) (s : St) : St :=
@@ -345,21 +379,35 @@ def setDsDets (n : Int) (s : St) : St :=
 def approxNonArcCorrBins (ntang newDets oldDets : Nat) : Nat :=
   (ntang * newDets + oldDets - 1) / oldDets + 1
 
-/-- the template that `downsample_scanner` builds (cylindrical branch, ScatterSimulation.cxx:890-926):
+/-- the template that `downsample_scanner` builds (ScatterSimulation.cxx:853-856 / 899-902 and 911-926, the same in the
+    cylindrical and the BlocksOnCylindrical branch):
     `ProjDataInfoCTI(new_scanner, span 1, delta_ring, new_num_dets/2 views, max_num_non_arccorrected_bins)` -/
 def downsampledTmpl (t : Tmpl) (newRings newDets : Nat) : Tmpl :=
   let deltaRing := if t.nseg = 1 then 0 else newRings - 1
   { base := t.base, dets := newDets, rings := newRings,
     ntang := approxNonArcCorrBins t.ntang newDets t.dets, nseg := 2 * deltaRing + 1 }
 
-/-- `downsample_scanner(new_num_rings, new_num_dets)` (ScatterSimulation.cxx:819), cylindrical scanners -/
+/-- `new_num_rings` as `downsample_scanner` uses it (ScatterSimulation.cxx:821-835): the argument if positive, else the
+    member `downsample_scanner_rings` if > 1, else derived from the axial length -/
+def dsRingsUsed (W : World) (s : St) (t : Tmpl) (newRings : Int) : Nat :=
+  if newRings ≤ 0 then (if s.dsRings > 1 then s.dsRings.toNat else W.defaultDsRings t) else newRings.toNat
+
+/-- `new_num_dets` as `downsample_scanner` uses it: the argument if positive; else on a cylindrical scanner the member
+    `downsample_scanner_dets` if > 0, else 64 (ScatterSimulation.cxx:892-898); on a BlocksOnCylindrical scanner the number
+    of detectors per ring of the current scanner — the member is not consulted there (ScatterSimulation.cxx:844-847) -/
+def dsDetsUsed (W : World) (s : St) (t : Tmpl) (newDets : Int) : Nat :=
+  if newDets ≤ 0 then
+    (if W.blocksBase t.base then t.dets else if s.dsDets > 0 then s.dsDets.toNat else 64)
+  else newDets.toNat
+
+/-- `downsample_scanner(new_num_rings, new_num_dets)` (ScatterSimulation.cxx:819), cylindrical and BlocksOnCylindrical
+    scanners (both branches compute the number of tangential positions and the ring difference in the same way and end in
+    `ProjDataInfoCTI` + `set_template_proj_data_info`; the blocks branch also re-spaces the crystals, which the sizes do
+    not see) -/
 def downsampleScannerCore (W : World) (newRings newDets : Int) (s : St) : St × Res :=
   match s.tmpl with
   | none => if newRings ≤ 0 ∧ ¬ (s.dsRings > 1) then (s, .err) else (s, .crash)
-  | some t =>
-    let nr : Nat := if newRings ≤ 0 then (if s.dsRings > 1 then s.dsRings.toNat else W.defaultDsRings t) else newRings.toNat
-    let nd : Nat := if newDets ≤ 0 then (if s.dsDets > 0 then s.dsDets.toNat else 64) else newDets.toNat
-    (setTemplateVal (downsampledTmpl t nr nd) s, .ok)
+  | some t => (setTemplateVal (downsampledTmpl t (dsRingsUsed W s t newRings) (dsDetsUsed W s t newDets)) s, .ok)
 
 /-- `downsample_scanner` called by the user: the new template is what the user wants from now on -/
 def downsampleScanner (W : World) (newRings newDets : Int) (s : St) : St × Res :=
@@ -491,6 +539,9 @@ inductive Op where
   | setActivity (k : Option Nat)
   | setDensity (k : Option Nat)
   | setSpImage (k : Option Nat)
+  | setActivityInPlace (a : Nat)
+  | setDensityInPlace (m : Nat)
+  | setSpImageInPlace (i : Nat)
   | setExam (e : Nat)
   | setZoom (z : Nat)
   | setThr (t : Nat)
@@ -510,6 +561,9 @@ def step (W : World) (s : St) : Op → St × Res × Option Out
   | .setActivity k => let (s', r) := setActivity k s; (s', r, none)
   | .setDensity k => let (s', r) := setDensity k s; (s', r, none)
   | .setSpImage k => let (s', r) := setSpImage k s; (s', r, none)
+  | .setActivityInPlace a => let (s', r) := setActivityInPlace a s; (s', r, none)
+  | .setDensityInPlace m => let (s', r) := setDensityInPlace m s; (s', r, none)
+  | .setSpImageInPlace i => let (s', r) := setSpImageInPlace i s; (s', r, none)
   | .setExam e => (setExam e s, .ok, none)
   | .setZoom z => (setZoom z s, .ok, none)
   | .setThr t => (setThr t s, .ok, none)
